@@ -98,30 +98,39 @@ def run_shift(case):
     s, a, b = make_world(n, nb)
     s.ps_data(a)[:] = data
     m = s.map_kick(a, b, it, axis)
-    s.map_set_offset(m, np.tile(ks.astype(np.float32), nb))
+    # a kick along y (the wake kick) has one displacement block per bunch; "perbunch": every bunch gets its own whole-cell
+    # displacements (the rows of bunch b are the given ones rotated by 7*b), otherwise all bunches share the block.  A kick
+    # along x (the drift) is the same for all bunches by design.
+    lo_, hi_ = -(n // 2), n - 1 - n // 2
+    per = bool(case.get("perbunch")) and axis == 1 and nb > 1
+    kb = np.stack([np.roll(ks, 7 * bb) if per else ks for bb in range(nb)])
+    if per:
+        kb = np.stack([np.clip(kb[bb] + (bb % 3) - 1, lo_, hi_) for bb in range(nb)])
+    s.map_set_offset(m, kb.astype(np.float32).reshape(-1))
     s.map_apply(m)
     out = s.ps_data(b).copy()
     exp = np.zeros_like(data)
     idx = np.arange(n)
-    for row in range(n):
-        src = idx + ks[row]
-        ok = (src >= 0) & (src < n)
-        if axis == 1:   # kick along y: rows are x
-            exp[:, row, idx[ok]] = data[:, row, src[ok]]
-        else:           # kick along x: rows are y
-            exp[:, idx[ok], row] = data[:, src[ok], row]
+    for bb in range(nb):
+        for row in range(n):
+            src = idx + kb[bb, row]
+            ok = (src >= 0) & (src < n)
+            if axis == 1:   # kick along y: rows are x
+                exp[bb, row, idx[ok]] = data[bb, row, src[ok]]
+            else:           # kick along x: rows are y
+                exp[bb, idx[ok], row] = data[bb, src[ok], row]
     # -0.0 cannot survive "0 + x*1": normalise
     eb = gen.bits(exp + np.float32(0.0))
     ob = gen.bits(out)
     nontrivial = bool((ks != 0).any()) and not case.get("const")
-    cls = ["it%d" % it, "axis%d" % axis, "nb%d" % min(nb, 2), "neg" if (ks < 0).any() else "nonneg"]
+    cls = ["it%d" % it, "axis%d" % axis, "nb%d" % min(nb, 2), "neg" if (ks < 0).any() else "nonneg"] + (["perbunch"] if per else []) + (["table>65536"] if n * nb * it > 65536 else [])
     if (eb != ob).any():
         bad = np.argwhere(eb != ob)[0]
         bnum = int(bad[0])
         return Outcome(False, nontrivial, classes=cls,
                        msg="whole-cell shift not bit-exact: n=%d nb=%d it=%d axis=%d at [b,x,y]=%s got %r want %r (row offset %d)" %
                        (n, nb, it, axis, bad.tolist(), float(out[tuple(bad)]), float(exp[tuple(bad)]),
-                        int(ks[bad[1] if axis == 1 else bad[2]])),
+                        int(kb[bad[0], bad[1] if axis == 1 else bad[2]])),
                        sig="shift:axis%d:%s" % (axis, "bunch0" if bnum == 0 else "bunch>=1"))
     return Outcome(True, nontrivial, classes=cls)
 
@@ -140,7 +149,16 @@ def shift_cases(draw):
         offs = [draw(st.integers(lo, hi))] * n
     else:
         offs = draw(st.lists(st.sampled_from([lo, hi, lo + 1, hi - 1, 0]), min_size=n, max_size=n))
-    return dict(n=n, nb=nb, it=it, axis=axis, offsets=offs, dseed=draw(gen.seeds()))
+    c = dict(n=n, nb=nb, it=it, axis=axis, offsets=offs, dseed=draw(gen.seeds()))
+    if nb > 1 and axis == 1 and draw(st.booleans()):
+        c["perbunch"] = True
+    if draw(st.integers(0, 59)) == 0:
+        # a long train on a fine grid: more than 2^16 entries in the table of interpolation stencils (n*nb*it), per-bunch
+        # displacement blocks (round-10 seed C02j keeps an index into that table in 16 bits)
+        c.update(n=draw(st.sampled_from([64, 96])), nb=draw(st.integers(180, 300)), it=draw(st.sampled_from([3, 4])), axis=1, perbunch=True)
+        lo, hi = -(c["n"] // 2), c["n"] - 1 - c["n"] // 2
+        c["offsets"] = draw(st.lists(st.integers(lo, hi), min_size=c["n"], max_size=c["n"]))
+    return c
 
 
 # ------------------------------------------------------------------ (c) polynomial reproduction
